@@ -99,6 +99,9 @@ type QGenOpts struct {
 	// IN-subqueries)
 	InSubTables []TableDef
 	NoConst     bool // no derived fields with constant operands (finding C01-gap-row-const)
+	// PctOverFields: query-time PERCENTILE whose value argument is built from
+	// table fields (planning de-aggregates that argument)
+	PctOverFields bool
 	// DataSpan is how far back (ns, positive) the data reaches from Base, for
 	// window generation.
 	DataSpan int64
@@ -173,6 +176,15 @@ func genSelect(r *Rng, t *TableDef, u *Universe, o QGenOpts) []string {
 	}
 	if r.Bool(0.1) && !o.NoConst {
 		sel = append(sel, fmt.Sprintf("%s * 2 AS g3", PickOne(r, names)))
+	}
+	if o.PctOverFields && r.Bool(0.25) {
+		arg := PickOne(r, []string{"%s * 100", "%s + %s", "IF(dc = TRUE, %s)", "SHIFT(%s, '-1s')", "%s"})
+		if strings.Count(arg, "%s") == 2 {
+			arg = fmt.Sprintf(arg, PickOne(r, names), PickOne(r, names))
+		} else {
+			arg = fmt.Sprintf(arg, PickOne(r, names))
+		}
+		sel = append(sel, fmt.Sprintf("PERCENTILE(%s, %d, 0, 100000, 1) AS g4", arg, PickOne(r, []int{50, 99})))
 	}
 	return sel
 }
